@@ -95,7 +95,8 @@ Inductive bq := BE (isteps : list rstep) | BN (isteps : list rstep) | BC (isteps
               | BRE (j : list rstep) | BRN (j : list rstep)            (* existence of a `$`-rooted path, and its negation *)
               | BCR (isteps : list rstep) (o : cmpop) (j : list rstep)   (* @steps OP $steps, OP an ordering operator *)
               | BPQ (isteps : list rstep) (ne : bool) (j : list rstep)   (* @steps == $steps, @steps != $steps *)
-              | BX (isteps : list rstep) (body : list N).              (* @steps =~ /body/ *)
+              | BX (isteps : list rstep) (body : list N)               (* @steps =~ /body/ *)
+              | BCL (lit : list N) (o : cmpop) (isteps : list rstep).   (* number OP @steps: the literal on the left *)
 Definition bq_text (b : bq) : list N :=
   match b with
   | BE i => 64 :: render_steps i
@@ -107,6 +108,7 @@ Definition bq_text (b : bq) : list N :=
   | BCR i o j => 64 :: render_steps i ++ op_text o ++ 36 :: render_steps j
   | BPQ i ne j => 64 :: render_steps i ++ (if ne then [33; 61] else [61; 61]) ++ 36 :: render_steps j
   | BX i body => 64 :: render_steps i ++ [61; 126; 47] ++ body ++ [47]
+  | BCL lit o i => lit ++ op_text o ++ 64 :: render_steps i
   end.
 Definition and_text (c : list bq) : list N :=
   match c with [] => [] | b :: bs => bq_text b ++ flat_map (fun x => [38; 38] ++ bq_text x) bs end.
